@@ -145,7 +145,7 @@ pub fn run(tier: Tier) -> i32 {
     let lv = level(tier);
 
     // (a) kernel, complete small scope
-    let nmax: i128 = if tier.thorough() { 2000 } else { 700 };
+    let nmax: i128 = if tier.thorough() { 6000 } else { 700 };
     let dmax: i128 = 40;
     let ns: Vec<i128> = (-nmax..=nmax).collect();
     for mode in ALL_MODES {
@@ -209,7 +209,7 @@ pub fn run(tier: Tier) -> i32 {
     run.stage("round-alphabet", json!({"coefficients":k.len(),"scales":19,"n":"all 256 i8 values","modes":8}));
 
     // (b2) complete small scope
-    let amax: i128 = if tier.thorough() { 5000 } else { 1200 };
+    let amax: i128 = if tier.thorough() { 20000 } else { 1200 };
     let small: Vec<i128> = (-amax..=amax).collect();
     for mode in ALL_MODES {
         run.par_for(&small, || RoundingMode::set_default(mode), |&a, l| {
